@@ -19,11 +19,31 @@ theorem fresh_unref {s : State} (c : Core none s) {h : Nat} (hh : s.next ≤ h) 
   · simp only [Live, ho] at l
     exact (c.idx _ h l).2 rfl
 
+/-- a fresh or pending tunnel carries no relay index -/
+theorem no_relay_idx_of_fresh {s : State} (c : Core none s) {h : Nat} (hh : s.next ≤ h) (i : Nat) :
+    ((s.rstate h).byIdx.get i).isSome = false := by
+  cases hk : ((s.rstate h).byIdx.get i).isSome with
+  | false => rfl
+  | true => have := (c.rsPend h i hk).1; omega
+
+theorem no_relay_idx_of_vpn {s : State} (c : Core none s) {h a : Nat} (hv : s.vpnIps.get a = some h) (i : Nat) :
+    ((s.rstate h).byIdx.get i).isSome = false := by
+  cases hk : ((s.rstate h).byIdx.get i).isSome with
+  | false => rfl
+  | true => exact absurd hv ((c.rsPend h i hk).2.2.1 a)
+
+theorem no_relay_idx_of_pidx {s : State} (c : Core none s) {h j : Nat} (hv : s.pidx.get j = some h) (i : Nat) :
+    ((s.rstate h).byIdx.get i).isSome = false := by
+  cases hk : ((s.rstate h).byIdx.get i).isSome with
+  | false => rfl
+  | true => exact absurd hv ((c.rsPend h i hk).2.1 j)
+
 theorem lt_next_of_lidx {s : State} (c : Core none s) {h : Nat} (hz : (s.obj h).lidx ≠ 0) : h < s.next := by
   apply Nat.lt_of_not_le; intro hh; rw [obj_fresh c hh] at hz; exact hz rfl
 
 theorem inv_init : Inv ({} : State) := by
-  refine ⟨⟨?_, ?_, ?_, ?_, ?_, ?_, ?_, ?_, ?_, ?_⟩, ?_⟩ <;> intros <;> simp_all [hostList, Rep, Cap]
+  refine ⟨⟨?_, ?_, ?_, ?_, ?_, ?_, ?_, ?_, ?_, ?_, ?_, ?_, ?_, ?_⟩, ?_⟩ <;> intros <;>
+    simp_all [hostList, Rep, Cap, State.rstate, ROk, AgreeA, AgreeI]
 
 /-! ### StartHandshake -/
 
@@ -35,8 +55,9 @@ theorem startHandshake_inv {s : State} (i : Inv s) (a : Nat) : Inv (startHandsha
     simp only
     obtain ⟨u1, u2, u3⟩ := fresh_unref i.core (Nat.le_refl s.next)
     have ho := obj_fresh i.core (Nat.le_refl s.next)
-    refine ⟨core_update i.core s.next { addrs := [a] } u3 (by simp) (fun y => by simp [get_set]) rfl rfl rfl rfl rfl
-      ?_ ?_ ?_, fun a' => by simpa [hostList] using i.cap a'⟩
+    refine ⟨core_update i.core s.next { addrs := [a] } u3 (by simp) (fun y => by simp [get_set]) rfl rfl rfl rfl rfl rfl
+      (no_relay_idx_of_fresh i.core (Nat.le_refl _)) ?_ ?_ ?_ (by intro _ _ hr; simp at hr)
+      (fun _ _ _ e => e), fun a' => by simpa [hostList] using i.cap a'⟩
     · intro a' x hx
       simp only [get_set] at hx
       by_cases e : a = a'
@@ -94,8 +115,9 @@ theorem opAlloc_inv {s : State} (i : Inv s) (a : Nat) (st : List Nat) : Inv (opA
         obtain ⟨v1, v2, _⟩ := i.core.vpn a h hv
         have notp : ∀ j, s.pidx.get j ≠ some h := by
           intro j hj; exact hr (i.core.pidx j h hj).2.2.2
-        refine ⟨core_update i.core h { s.obj h with lidx := idx, ready := true } v2 (by simp) ?_ rfl rfl rfl rfl rfl
-          ?_ ?_ ?_, fun a' => by simpa [hostList, State.setObj] using i.cap a'⟩
+        refine ⟨core_update i.core h { s.obj h with lidx := idx, ready := true } v2 (by simp) ?_ rfl rfl rfl rfl rfl rfl
+          (no_relay_idx_of_vpn i.core hv) ?_ ?_ ?_ (by intro _ _ _; simp [State.setObj, get_set]) ?_,
+          fun a' => by simpa [hostList, State.setObj] using i.cap a'⟩
         · intro y
           simp only [State.setObj, get_set]
           by_cases e' : h = y <;> simp [e', State.obj, get_set]
@@ -122,6 +144,10 @@ theorem opAlloc_inv {s : State} (i : Inv s) (a : Nat) (st : List Nat) : Inv (opA
           rintro rfl
           have := obj_fresh i.core hx'
           rw [this] at v1; cases v1
+        · intro j x _ hj
+          simp only [State.setObj, get_set]
+          have : idx ≠ j := by rintro rfl; rw [hp] at hj; cases hj
+          simp [this, hj]
       · generalize hal : allocLoop h 32 s st = r at e hne
         obtain ⟨s', res⟩ := r
         simp only at e hne
